@@ -7,6 +7,7 @@ tree and non-zero with the change, and the unedited suite passes with the change
 """
 import json
 import os
+import re
 import shutil
 import sys
 
@@ -19,8 +20,9 @@ def main():
     kept, dropped = [], []
     for mid, r in sorted(res.items()):
         src = os.path.join(root, mid)
-        ok = r.get("applies") and r.get("demo_clean") == 0 and r.get("demo_mutant") not in (0, None) and " passed" in r.get("suite", "") \
-            and "failed" not in r.get("suite", "") and "error" not in r.get("suite", "").lower()
+        suite = r.get("suite", "")
+        ok = r.get("applies") and r.get("demo_clean") == 0 and r.get("demo_mutant") not in (0, None) and " passed" in suite \
+            and not re.search(r"\d+ failed", suite) and not re.search(r"\d+ error", suite)
         if not ok:
             dropped.append((mid, {k: r.get(k) for k in ("applies", "demo_clean", "demo_mutant", "suite")}))
             continue
